@@ -126,6 +126,8 @@ theorem unselected_branch_irrelevant {ρ f x y sp v} (y' : AST) (hf : tagOf f = 
   | call _ hc' _ => have := hc.deterministic hc'; cases this
   | eqInt _ _ _ => simp [tagOf] at hf
   | addInt _ _ _ => simp [tagOf] at hf
+  | mulInt _ _ _ => simp [tagOf] at hf
+  | ltInt _ _ _ => simp [tagOf] at hf
 
 theorem unselected_branch_irrelevant' {ρ f x y sp v} (x' : AST) (hf : tagOf f = none) (hc : BN ρ f (.bool false))
     (h : BN ρ (.call f [x, y] sp) v) : BN ρ (.call f [x', y] sp) v := by
@@ -134,6 +136,8 @@ theorem unselected_branch_irrelevant' {ρ f x y sp v} (x' : AST) (hf : tagOf f =
   | call _ hc' _ => have := hc.deterministic hc'; cases this
   | eqInt _ _ _ => simp [tagOf] at hf
   | addInt _ _ _ => simp [tagOf] at hf
+  | mulInt _ _ _ => simp [tagOf] at hf
+  | ltInt _ _ _ => simp [tagOf] at hf
 
 /-- … and so does the evaluator's result (adequacy): the two closed programs evaluate to the same integer, whatever the
 unselected branch is -/
